@@ -22,10 +22,11 @@ from .models_ops import (
 BUILTIN_NAMES = {
     'isinstance', 'len', 'int', 'float', 'str', 'bool', 'list', 'dict', 'tuple', 'set', 'range', 'enumerate',
     'min', 'max', 'abs', 'sorted', 'next', 'iter', 'reversed', 'callable', 'ord', 'chr', 'sum', 'type', 'super',
-    'print', 'open', 'zip', 'any', 'all', 'repr',
+    'print', 'open', 'zip', 'any', 'all', 'repr', 'complex',
 }
 
 TRUSTED = set()     # names of dependency models actually used in a run
+TABLE_NAMES = {}    # id(python dict) -> 'module.NAME' for module-level constant tables
 
 
 def used(name):
@@ -103,7 +104,8 @@ def type_pred(ip, val, ty):
         raise OutOfReach(f'isinstance of {val.kind}')
     if isinstance(val, C):
         py = val.py
-        table = {'str': str, 'bool': bool, 'int': int, 'float': float, 'dict': dict, 'list': list, 'tuple': tuple}
+        table = {'str': str, 'bool': bool, 'int': int, 'float': float, 'dict': dict, 'list': list, 'tuple': tuple,
+                 'complex': complex}
         if name in table:
             return isinstance(py, table[name])
         return False
@@ -113,6 +115,7 @@ def type_pred(ip, val, ty):
         'dict': is_dict(t), 'list': is_list(t), 'datetime.date': is_date(t),
         'datetime.datetime': z3.And(is_date(t), V.kind(t) >= 1), 'REGEX_TYPE': is_regex(t),
         'tuple': z3.BoolVal(False), 'uuid.UUID': z3.And(is_other(t), V.oid(t) == -7),
+        'complex': z3.And(is_other(t), V.oid(t) == -5),
     }
     if name in preds:
         return z3.simplify(preds[name])
@@ -600,10 +603,15 @@ DATE_RANGE = {'year': (1, 9999), 'month': (1, 12), 'day': (1, 31), 'hour': (0, 2
               'second': (0, 59), 'microsecond': (0, 999999)}
 
 
+DIM = ufun('DIM', Int, Int, Int)                       # days in month
+
+
 def date_field(ip, t, name):
     f = DATE_FIELD[name](V.us(t))
     lo, hi = DATE_RANGE[name]
     ip.ctx.assume(z3.And(f >= lo, f <= hi))
+    if name == 'day':
+        ip.ctx.assume(f <= DIM(DATE_FIELD['year'](V.us(t)), DATE_FIELD['month'](V.us(t))))
     used('datetime component accessors: uninterpreted functions of the instant, within their calendar ranges')
     return norm(ip, I(f))
 
@@ -641,7 +649,7 @@ def getattr(ip, obj, attr):
         raise OutOfReach(f'attribute {attr} of {k}')
     if isinstance(obj, S):
         kd = kind_of(ip, obj)
-        if kd == 'date' or (kd is None and attr in DATE_FIELD and ctx.must(is_date(obj.t))):
+        if kd == 'date' or (kd is None and (attr in DATE_FIELD or attr == 'tzinfo') and ctx.must(is_date(obj.t))):
             if attr in DATE_FIELD:
                 return date_field(ip, obj.t, attr)
             if attr == 'tzinfo':
@@ -683,6 +691,20 @@ def call_method(ip, self_, name, args, kwargs, frame):
                 if isinstance(key, C):
                     return ctx.wrap(py[key.py]) if key.py in py else default
                 kt = key_term(ip, key)
+                if len(py) > 8:
+                    # a large constant table looked up with a symbolic key: the result is an uninterpreted function
+                    # of the key (the table itself is checked by an exhaustive table lemma where a property needs it)
+                    name = TABLE_NAMES.get(id(py))
+                    if name is None:
+                        raise OutOfReach('symbolic lookup in an unnamed constant table')
+                    used(f'{name}.get(symbolic key): uninterpreted lookup function')
+                    hit = ufun(f'TABLE_HAS_{name}', Str, Bool)(kt)
+                    if ctx.branch(hit):
+                        v = ufun(f'TABLE_{name}', Str, V)(kt)
+                        if all(isinstance(x, Obj) and x.kind == 'func' for x in py.values()):
+                            ctx.assume(is_func(v))
+                        return S(v)
+                    return default
                 for k2, v in py.items():
                     if isinstance(k2, str) and ctx.branch(kt == z3.StringVal(k2)):
                         return ctx.wrap(v)
@@ -733,7 +755,7 @@ def list_method(ip, lst, name, args, kwargs):
     h = ctx.heap
     n = h.llen(ref)
     if name == 'append':
-        vt = ctx.to_term(args[0])
+        vt = ctx.stored(args[0])
         h = ctx.heap
         ctx.heap = h.lset(ref, h.llen(ref), vt).lsetlen(ref, z3.simplify(h.llen(ref) + 1))
         return C(None)
@@ -820,7 +842,7 @@ def dict_method(ip, d, name, args, kwargs):
             from .models_loops import genexp_items
             for it in genexp_items(ip, src):
                 kv = unpack(ip, it, 2)
-                ctx.heap = ctx.heap.dset(ref, key_term(ip, norm(ip, kv[0])), ctx.to_term(kv[1]))
+                ctx.heap = ctx.heap.dset(ref, key_term(ip, norm(ip, kv[0])), ctx.stored(kv[1]))
             return C(None)
         raise OutOfReach('dict.update() argument')
     if name == 'pop':
